@@ -218,7 +218,7 @@ class RaggedArray(IndexableArray, np.lib.mixins.NDArrayOperatorsMixin):
         """
 
         if len(self) == 0:
-            return np.empty(shape=(0, 0))
+            return np.empty(shape=(0, 0), dtype=self.dtype)
         L = self._shape.lengths[0]
         assert np.all(self._shape.lengths == L)
         return self.ravel().reshape(self._shape.n_rows, L)
